@@ -22,6 +22,15 @@ std::vector<CheckDef>& check_table()
 		  "per scenario (pending changes + sync, or synced array + scrub -p full) the logical I/O targets are read off a fault-free trace: every (data file, block) read and every (parity level, position) read or written; each target fails once "
 		  "with EIO (ENOSPC for a quarter of the parity writes), alone or in pairs, under io-cache depths {1,3,5,17,128} and seeded schedules. Judged: failing exit, diagnostic, summary:error_io, the hit stripe is not (synced and not bad) unless the "
 		  "independent parity oracle shows its parity right, no other stripe gains false protection, the other stripes are processed, and fix -e + sync + scrub -p bad end clean. quick samples 8 targets x 2 depths per scenario (always incl. the first and the last two), thorough takes all x 5 depths. Non-trivial = the fault fired" },
+		{ "C09", "fault_enumeration", { { "content-damage", 240, 120 }, { "crash", 8, 300 } },
+		  "(a) content files produced by seeded histories (format 2 and 3, all record kinds, reduced hash sizes, deleted runs, bad marks) are damaged - single bit flips, byte substitutions {0x00,0xff,+1,-1}, truncation at a length, "
+		  "random multi-byte damage - installed as the first copy and loaded by status/diff/list/check -a/sync/scrub under ASan+UBSan with stream buffers of 64K/4K/512/96 bytes: non-zero exit (abort counts), no sanitizer report, nothing modified. "
+		  "quick: 120 sampled cases per file + the header/first record/crc boundaries; thorough: every bit, every byte x 4 substitutions, every truncation length. (b) the crash family kills sync/fix at every mutation inside the "
+		  "save-verify-rename sequence: every present copy must be a complete file, and after a command that saved all copies are identical. Non-trivial = every damaged-load case and every kill that landed" },
+		{ "C11", "exploration", { { "converge", 1500, 40000 } },
+		  "seeded sequences of create/overwrite/append/truncate/delete/rename/move across disks/copy with stamp/touch/links/dirs/swap of two names/inode reuse between syncs, with and without UUIDs, all four scan orders, parallel or sequential disk scan under seeded schedules. "
+		  "Before each sync diff must exit 2 exactly when the walk of the disks differs from the decoded content (path, size, stamp, link target; inode-only = don't care; empty dirs ignored) or the previous sync was incomplete; after a successful complete sync: every new/changed file was read "
+		  "(trace), decoded content == disks incl. empty dirs, diff exits 0, list -l == disks, check exits 0. Non-trivial = a run with at least one successful complete sync judged; distinct = (config, op sequence) hashes" },
 		{ "C06", "exploration", { { "parity-inv", 4000, 80000 }, { "crash", 16, 400 } },
 		  "seeded histories of file-system changes interleaved with sync variants/scrub/fix/touch/rehash/check under seeded schedules; the independent parity oracle runs after every command. "
 		  "A run is non-trivial when at least one fully synced stripe was compared with parity and >= 3 commands ran; distinct = distinct (config, op sequence) hashes" },
